@@ -55,7 +55,7 @@ def conflict(c1, c2):
 def build(r, name, derives, n=None, styles=True, allow_default=True, allow_disabled=True, allow_aci=True,
           allow_prefix=False, fieldless=False, generics_pool=(None, None, None, "T", "a", "aT", "N", "Tw"),
           distinct_lengths=False, uni=True, naming_bias=0.6, max_n=9, capture_types=None, allow_default_with=True,
-          forced_style="__unset__", dup_within_variant=True, allow_braces=False):
+          forced_style="__unset__", dup_within_variant=True, allow_braces=False, allow_disabled_default=False, avoid_snake_collisions=False):
     """Random string enum inside the domain of C01 (non-overlapping spellings)."""
     if n is None:
         n = r.choice([0, 1, 2, 3, 3, 4, 5, 6, 7, max_n])
@@ -70,7 +70,7 @@ def build(r, name, derives, n=None, styles=True, allow_default=True, allow_disab
         spec.prefix = r.choice(gen.PREFIXES)
     spec.enum_attr_split = r.choice([0, 1])
     spec.attr_order_seed = r.choice([0, 0, 1, 2, 3, 4, 5, 6])
-    idents = gen.pick_idents(r, n + 4)
+    idents = gen.pick_idents(r, n + 4, avoid_snake_collisions=avoid_snake_collisions)
     taken = []   # claims of all variants generated so far (including disabled/default ones)
     have_default = False
     dw_counter = [0]
@@ -121,6 +121,12 @@ def build(r, name, derives, n=None, styles=True, allow_default=True, allow_disab
                     v.fields = [Field(ty=ct, name=r.choice(gen.FIELD_NAMES))]
                 if r.random() < 0.1:
                     v.disabled = True   # default + disabled: never installed as catch-all
+            elif allow_disabled_default and r.random() < 0.08:
+                # `default` on a disabled variant: the variant does not exist for the parser, so there is no catch-all
+                v.default = True
+                v.disabled = True
+                v.kind = "tuple"
+                v.fields = [Field(ty=r.choice(capture_types or CAPTURE_TYPES))]
             elif allow_default_with and not fieldless and v.kind == "tuple" and len(v.fields) == 1 and r.random() < 0.3:
                 f = v.fields[0]
                 if f.ty not in ("T", "U", "RefStr", "CG"):
